@@ -1,0 +1,71 @@
+//! Entry points for out-of-tree verification harnesses. Compiled only with
+//! `--cfg hyperium_h3_verif`; nothing here is reachable from the library itself
+//! except [`preempt`], which is a no-op unless a callback has been installed.
+
+use std::convert::TryFrom;
+use std::sync::RwLock;
+
+use crate::config::{Config, Settings};
+use crate::proto::frame;
+
+/// Build a [`Config`] from raw field values and run the real `TryFrom<Config>`
+/// conversion that connection setup uses to produce the SETTINGS frame.
+pub fn settings_from_config(
+    send_grease: bool,
+    max_field_section_size: u64,
+    enable_webtransport: bool,
+    enable_extended_connect: bool,
+    enable_datagram: bool,
+    max_webtransport_sessions: u64,
+) -> Result<frame::Settings, frame::SettingsError> {
+    let mut config = Config::default();
+    config.send_grease = send_grease;
+    config.settings.max_field_section_size = max_field_section_size;
+    config.settings.enable_webtransport = enable_webtransport;
+    config.settings.enable_extended_connect = enable_extended_connect;
+    config.settings.enable_datagram = enable_datagram;
+    config.settings.max_webtransport_sessions = max_webtransport_sessions;
+    frame::Settings::try_from(config)
+}
+
+/// Run the real `From<&frame::Settings>` conversion applied to received
+/// SETTINGS and return
+/// `(max_field_section_size, enable_webtransport, enable_extended_connect, enable_datagram, max_webtransport_sessions)`.
+pub fn applied_settings(settings: &frame::Settings) -> (u64, bool, bool, bool, u64) {
+    let s = Settings::from(settings);
+    (
+        s.max_field_section_size,
+        s.enable_webtransport,
+        s.enable_extended_connect,
+        s.enable_datagram,
+        s.max_webtransport_sessions,
+    )
+}
+
+/// The protocol defaults used until the peer's SETTINGS arrive, same tuple as [`applied_settings`].
+pub fn default_settings() -> (u64, bool, bool, bool, u64) {
+    let s = Settings::default();
+    (
+        s.max_field_section_size,
+        s.enable_webtransport,
+        s.enable_extended_connect,
+        s.enable_datagram,
+        s.max_webtransport_sessions,
+    )
+}
+
+type PreemptFn = Box<dyn Fn(&'static str) + Send + Sync>;
+
+static PREEMPT: RwLock<Option<PreemptFn>> = RwLock::new(None);
+
+/// Install (or clear) the callback run at every named pre-emption point.
+pub fn set_preempt(f: Option<PreemptFn>) {
+    *PREEMPT.write().unwrap() = f;
+}
+
+/// Named pre-emption point: a no-op unless a callback is installed.
+pub fn preempt(name: &'static str) {
+    if let Some(f) = PREEMPT.read().unwrap().as_ref() {
+        f(name)
+    }
+}
